@@ -227,7 +227,7 @@ func c10(e *Env) {
 			if os.Getenv("RULE_DEBUG") == "C10" {
 				fmt.Println("Upstream key alt:", as)
 			}
-			if strings.Contains(as, "subStreamIPs[") {
+			if strings.Contains(as, e.subFieldName()+"[") {
 				hasJoin = true
 			} else {
 				hasPlain = true
@@ -275,7 +275,7 @@ func c10(e *Env) {
 		badGuard := ""
 		for _, gd := range strings.Split(gs, " && ") {
 			gd = strings.TrimSpace(gd)
-			if gd == "" || strings.HasPrefix(strings.TrimPrefix(gd, "!"), "more∈") || strings.HasPrefix(gd, "op<") || strings.Contains(gd, ".join") {
+			if gd == "" || strings.HasPrefix(strings.TrimPrefix(gd, "!"), "more∈") || strings.HasPrefix(gd, "op<") || strings.Contains(gd, "."+e.joinFlagName()) {
 				continue
 			}
 			badGuard = gd
